@@ -113,7 +113,8 @@ def noRecurseLog (i : Info) : List Call :=
 
 def specNoRecurse (i : Info) : NoRec := { valid := verdict i, log := noRecurseLog i }
 
-/-- what the branch computes as written, said without the assignments: the LAST phase that evaluates decides -/
+/-- what the branch computed BEFORE repair 10acb0e, said without the assignments: the LAST phase that evaluates
+    decides (counter-model only) -/
 def lastPhaseVerdict (i : Info) : Valid :=
   match (upVerdict i).1 with
   | .uneval => (match (downVerdict i).1 with
@@ -121,7 +122,7 @@ def lastPhaseVerdict (i : Info) : Valid :=
       | d => .ofBool d.truthy)
   | u => .ofBool u.truthy
 
-/-- the two readings coincide unless the descent list failed and the ascent list passed -/
+/-- the old code and the documented verdict coincide unless the descent list failed and the ascent list passed -/
 def phasesAgree (i : Info) : Bool :=
   (upVerdict i).1 == .uneval || (downVerdict i).1.truthy || !(upVerdict i).1.truthy
 
